@@ -995,3 +995,173 @@ Section Core.
   Qed.
 End Core.
 
+
+(* ------------------------------------------------------------------ 9. from the constructor to the core statement *)
+
+Definition used_of {A} (nz : A -> bool) (l : list A) : list A :=
+  match filter nz l with [] => firstn 1 l | _ :: _ => filter nz l end.
+
+Lemma filter_sum {A} (w : A -> Z) nz : forall l, (forall a, In a l -> nz a = false -> w a = 0) ->
+  zsum (map w (filter nz l)) = zsum (map w l).
+Proof.
+  induction l as [|a r IH]; intro H; [reflexivity|]. cbn [filter].
+  assert (Hr : forall a0, In a0 r -> nz a0 = false -> w a0 = 0) by (intros; apply H; [now right|assumption]).
+  destruct (nz a) eqn:E; cbn [map zsum fold_right].
+  - fold (zsum (map w (filter nz r))). fold (zsum (map w r)). now rewrite IH.
+  - fold (zsum (map w r)). rewrite (H a (or_introl eq_refl) E). rewrite IH by assumption. lia.
+Qed.
+
+Lemma used_sum {A} (w : A -> Z) nz l : (forall a, In a l -> nz a = false -> w a = 0) ->
+  zsum (map w (used_of nz l)) = zsum (map w l).
+Proof.
+  intro H. unfold used_of. pose proof (filter_sum w nz l H) as FS.
+  destruct (filter nz l) as [|x ne] eqn:E; [|exact FS].
+  cbn in FS. rewrite <- FS. destruct l as [|a r]; [reflexivity|]. cbn [firstn map zsum fold_right].
+  cbn [filter] in E. destruct (nz a) eqn:Ea; [discriminate|]. rewrite (H a (or_introl eq_refl) Ea). reflexivity.
+Qed.
+
+Lemma filter_concat {A B} (g : A -> list B) nz : forall l, (forall a, In a l -> nz a = false -> g a = []) ->
+  List.concat (map g (filter nz l)) = List.concat (map g l).
+Proof.
+  induction l as [|a r IH]; intro H; [reflexivity|]. cbn [filter].
+  assert (Hr : forall a0, In a0 r -> nz a0 = false -> g a0 = []) by (intros; apply H; [now right|assumption]).
+  destruct (nz a) eqn:E; cbn [map List.concat].
+  - now rewrite IH.
+  - rewrite (H a (or_introl eq_refl) E). now rewrite IH.
+Qed.
+
+Lemma used_concat {A B} (g : A -> list B) nz l : (forall a, In a l -> nz a = false -> g a = []) ->
+  List.concat (map g (used_of nz l)) = List.concat (map g l).
+Proof.
+  intro H. unfold used_of. pose proof (filter_concat g nz l H) as FS.
+  destruct (filter nz l) as [|x ne] eqn:E; [|exact FS].
+  cbn in FS. rewrite <- FS. destruct l as [|a r]; [reflexivity|]. cbn [firstn map List.concat].
+  cbn [filter] in E. destruct (nz a) eqn:Ea; [discriminate|]. rewrite (H a (or_introl eq_refl) Ea). reflexivity.
+Qed.
+
+Lemma Forall2_impl' {A B} (P Q : A -> B -> Prop) l1 l2 : (forall a b, P a b -> Q a b) -> Forall2 P l1 l2 -> Forall2 Q l1 l2.
+Proof. intros H. induction 1; constructor; auto. Qed.
+
+Lemma Forall2_in_r {A B} (Rel : A -> B -> Prop) l1 l2 b : Forall2 Rel l1 l2 -> In b l2 -> exists a, Rel a b.
+Proof. induction 1 as [|x y ? ? H _ IH]; intro Hin; [contradiction|]. destruct Hin as [<-|Hin]; eauto. Qed.
+
+Lemma Forall2_filter {A B} (Rel : A -> B -> Prop) (f : A -> bool) (g : B -> bool) l1 l2 :
+  Forall2 (fun a b => Rel a b /\ f a = g b) l1 l2 -> Forall2 Rel (filter f l1) (filter g l2).
+Proof.
+  induction 1 as [|a b l1 l2 [HR He] _ IH]; [constructor|]. cbn [filter]. rewrite <- He.
+  destruct (f a); [constructor; assumption|assumption].
+Qed.
+
+Lemma used_Forall2 {A B} (Rel : A -> B -> Prop) (f : A -> bool) (g : B -> bool) l1 l2 :
+  Forall2 (fun a b => Rel a b /\ f a = g b) l1 l2 -> Forall2 Rel (used_of f l1) (used_of g l2).
+Proof.
+  intro H. pose proof (Forall2_filter Rel f g l1 l2 H) as HF. unfold used_of.
+  destruct HF as [|a b r1 r2 H1 H2]; [|constructor; assumption].
+  destruct H as [|a b l1 l2 [HR _] _]; cbn; constructor; [exact HR|constructor].
+Qed.
+
+Lemma list_eqb_eq : forall a b, list_eqb a b = true -> a = b.
+Proof.
+  induction a as [|x a IH]; intros [|y b] H; cbn in H; try discriminate; [reflexivity|].
+  apply andb_prop in H. destruct H as [H1 H2]. f_equal; [lia|now apply IH].
+Qed.
+
+Definition raw_ok (dt : Z) (r : craw) : Prop :=
+  Forall (fun d => 0 <= d) (r_shape r) /\ r_shape r <> [] /\ r_dt r = dt.
+
+Definition PF (dt : Z) (p : cpart) (f : nd) : Prop :=
+  part_ok (tl (nd_shape f)) dt p f /\ 0 <= part_len p /\ part_len p = hd 0 (nd_shape f) /\ li_dtype0 (cp_li p) = dt.
+
+Lemma parts_fulls dt : forall raws psA fulls, Forall (raw_ok dt) raws ->
+  mapM (fun r => li <- mk_lazy (r_shape r) (r_keep r) [] (r_dt r) ;; Ok (mk_cpart li (r_ds r))) raws = Ok psA ->
+  mapM (fun r => oindex_keep (mk_nd (r_shape r) (r_ds r)) (r_keep r)) raws = Ok fulls ->
+  Forall2 (PF dt) psA fulls.
+Proof.
+  induction raws as [|r raws IH]; intros psA fulls HR HM HF; cbn in HM, HF.
+  - injection HM as <-. injection HF as <-. constructor.
+  - inversion HR as [|? ? [R1 [R2 R3]] HR']; subst.
+    destruct (mk_lazy _ _ _ _) as [li|] eqn:EL; [|discriminate]. cbn [bind] in HM.
+    destruct (mapM _ raws) as [ps'|] eqn:EM in HM; [|discriminate]. cbn [bind] in HM. injection HM as <-.
+    destruct (oindex_keep _ _) as [a1|] eqn:EO; [|discriminate]. cbn [bind] in HF.
+    destruct (mapM _ raws) as [fs'|] eqn:EF in HF; [|discriminate]. cbn [bind] in HF. injection HF as <-.
+    constructor; [|apply IH; auto].
+    destruct (part_ok_of_raw r li a1 R1 R2 EL EO) as [PO PL].
+    destruct (mk_lazy_fields _ _ _ _ _ _ _ R1 EL EO) as [_ [_ [_ [F4 _]]]].
+    split; [exact PO|]. split; [exact PL|]. split; [|exact F4].
+    destruct PO as [Hsh _]. rewrite Hsh. reflexivity.
+Qed.
+
+(* C05_concat: for every list of raw parts (any number, some empty, each with its own first stage), every index
+   tuple and every transform chain: if the concatenated indexer answers, the answer is the same index applied to
+   the concatenation of the parts' first-stage results, then the transforms (values, shape, dtype). *)
+Lemma c_mk_used raws ts c : c_mk raws ts = Ok c ->
+  exists psA, mapM (fun r => li <- mk_lazy (r_shape r) (r_keep r) [] (r_dt r) ;; Ok (mk_cpart li (r_ds r))) raws = Ok psA
+    /\ c = mk_concat (used_of (fun p => negb (part_len p =? 0)) psA) ts.
+Proof.
+  unfold c_mk. destruct (mapM _ raws) as [psA|]; [|discriminate]. cbn [bind]. cbv zeta.
+  destruct (c_shape _); [|discriminate]. cbn [bind]. destruct (c_dtype _); [|discriminate]. cbn [bind].
+  intro H. injection H as <-. exists psA. split; [reflexivity|]. unfold used_of. reflexivity.
+Qed.
+
+Lemma concat_correct dt raws ts ix c out fulls :
+  Forall (raw_ok dt) raws ->
+  mapM (fun r => oindex_keep (mk_nd (r_shape r) (r_ds r)) (r_keep r)) raws = Ok fulls ->
+  c_mk raws ts = Ok c -> c_getitem c ix = Ok out ->
+  spec_concat raws ts ix = Ok out.
+Proof.
+  intros HR HFu HM HG. destruct (c_mk_used _ _ _ HM) as [psA [EP ->]].
+  pose proof (parts_fulls dt raws psA fulls HR EP HFu) as HPF.
+  set (nzp := fun p : cpart => negb (part_len p =? 0)) in *.
+  set (nzf := fun a : nd => negb (hd 0 (nd_shape a) =? 0)).
+  assert (HU : Forall2 (PF dt) (used_of nzp psA) (used_of nzf fulls)).
+  { apply used_Forall2. eapply Forall2_impl'; [|exact HPF]. intros p f H. split; [exact H|].
+    destruct H as [_ [_ [H _]]]. unfold nzp, nzf. now rewrite H. }
+  (* the dropped parts carry no rows *)
+  assert (HW : zsum (map part_len (used_of nzp psA)) = zsum (map (fun a => hd 0 (nd_shape a)) fulls)).
+  { rewrite <- (used_sum (fun a => hd 0 (nd_shape a)) nzf fulls).
+    - clear -HU. induction HU as [|p f l l' H _ IH]; [reflexivity|]. cbn [map zsum fold_right].
+      fold (zsum (map part_len l)). fold (zsum (map (fun a => hd 0 (nd_shape a)) l')). rewrite IH.
+      destruct H as [_ [_ [H _]]]. now rewrite H.
+    - intros a _ Ha. unfold nzf in Ha. lia. }
+  assert (HC : List.concat (map (fun f => children (nd_body f)) (used_of nzf fulls))
+               = List.concat (map (fun f => children (nd_body f)) fulls)).
+  { apply used_concat. intros a Hin Ha. unfold nzf in Ha.
+    destruct (Forall2_in_r _ _ _ _ HPF Hin) as [p [[_ [_ [[ch [Hb Hl]] _]]] [_ [Hlen _]]]].
+    rewrite Hb. cbn [children]. destruct ch; [reflexivity|]. rewrite zlen_cons in Hl. pose proof (zlen_nonneg ch). lia. }
+  (* the indexer answered: tails and dtypes of the used parts agree *)
+  remember (used_of nzp psA) as used eqn:EU. remember (used_of nzf fulls) as fused eqn:EFu.
+  assert (HG' := HG). unfold c_getitem in HG'. cbn [c_parts c_ts] in HG'.
+  destruct (c_initial_shape used) as [init|] eqn:EI; [|discriminate]. cbn [bind] in HG'.
+  destruct (c_initial_dtype used) as [d0|] eqn:ED; [|discriminate]. clear HG'.
+  destruct HU as [|p0 f0 ur fr HP0 HUr]; [discriminate|].
+  set (T := part_tail p0).
+  unfold c_initial_shape in EI. destruct (forallb _ ur) eqn:EB in EI; [|discriminate]. clear EI init.
+  assert (HPO : Forall2 (part_ok T dt) (p0 :: ur) (f0 :: fr)).
+  { constructor.
+    - destruct HP0 as [PO _]. assert (E : tl (nd_shape f0) = T) by (destruct PO as [_ [E _]]; now rewrite <- E).
+      now rewrite E in PO.
+    - rewrite forallb_forall in EB. clear -HUr EB. induction HUr as [|q f ur' fr' H _ IH]; [constructor|].
+      constructor; [|apply IH; intros x Hx; apply EB; now right].
+      destruct H as [PO _]. specialize (EB q ltac:(now left)). apply list_eqb_eq in EB.
+      assert (E : tl (nd_shape f) = part_tail p0) by (destruct PO as [_ [E _]]; now rewrite <- E, <- EB).
+      now rewrite E in PO. }
+  assert (HL : Forall (fun p => 0 <= part_len p) (p0 :: ur)).
+  { constructor; [destruct HP0 as [_ [H _]]; exact H|]. clear -HUr.
+    induction HUr as [|q f ? ? H _ IH]; constructor; auto. destruct H as [_ [H _]]. exact H. }
+  assert (HD : c_initial_dtype (p0 :: ur) = Ok dt).
+  { unfold c_initial_dtype in *. destruct (forallb _ ur) in ED |- *; [|discriminate].
+    destruct HP0 as [_ [_ [_ H]]]. now rewrite H. }
+  pose proof (concat_core (p0 :: ur) (f0 :: fr) T dt HPO ltac:(discriminate) HL ts ix out HD HG) as CC.
+  (* the spec side *)
+  unfold spec_concat. rewrite HFu. cbn [bind].
+  change (match filter (fun a : nd => negb (hd 0 (nd_shape a) =? 0)) fulls with
+          | [] => firstn 1 fulls | _ :: _ => filter (fun a : nd => negb (hd 0 (nd_shape a) =? 0)) fulls end)
+    with (used_of nzf fulls). rewrite <- EFu.
+  rewrite <- HW. unfold cat. rewrite flat_map_concat_map, map_map. rewrite <- HC.
+  assert (ET : tl (nd_shape f0) = T) by (destruct HP0 as [[_ [E _]] _]; now rewrite <- E).
+  rewrite ET.
+  assert (EDt : match raws with [] => 0 | r0 :: _ => r_dt r0 end = dt).
+  { destruct raws as [|r0 rr]; [|inversion HR as [|? ? [_ [_ H]] _]; exact H].
+    cbn in EP. injection EP as <-. discriminate. }
+  rewrite EDt. exact CC.
+Qed.
